@@ -386,8 +386,9 @@ Definition total_size (rs : list ring) : Z := fold_right (fun r s => zlen r + s)
 
 (* ------------------------------------------------------------------------------------------------ *)
 (* reference minimum cycle basis: Horton candidates (shortest-path tree from every vertex + one non-tree
-   edge) sorted by length, greedy GF(2) elimination.  Executable; its output is run through is_cycle_basis
-   and its total size is the oracle for the minimality clause (minimality itself is not proved). *)
+   edge) plus one family of fundamental cycles (so that the candidates provably span), sorted by length, greedy GF(2)
+   elimination.  Executable; proved to be a cycle basis of every well-formed graph; its total size is the oracle for
+   the minimality clause (proved minimum among independent families of candidates; Horton's theorem is not proved). *)
 
 (* BFS tree as a parent map: list of (vertex, path from the root to the vertex) in discovery order *)
 Definition tvisit (cur_path : list Z) (qs : list (Z * list Z) * list (Z * list Z)) (i : Z) :=
@@ -443,8 +444,29 @@ Fixpoint greedy (g : graph) (B : list (nat * vec)) (cands : list ring) (need : n
           end
       end
   end.
+(* fundamental cycles by bond deletion: delete the first bond (a, b); if b is still reachable from a, the breadth-first path
+   a ... b of the remaining graph closed by the deleted bond is a cycle; continue with the remaining graph.  These
+   bonds - atoms + components cycles are linearly independent, so that the candidate list always spans the cycle space *)
+Definition del_edge (g : graph) (a b : Z) : graph := discard_in a (discard_in b g a) b.
+Fixpoint fund_loop (fuel : nat) (g : graph) : list ring :=
+  match fuel with
+  | O => []
+  | S f =>
+      match edges g with
+      | [] => []
+      | (a, b) :: _ =>
+          let g' := del_edge g a b in
+          match zget (sp_tree g' a) b with
+          | Some p => p :: fund_loop f g'
+          | None => fund_loop f g'
+          end
+      end
+  end.
+Definition fund_cycles (g : graph) : list ring := fund_loop (length (edges g)) g.
+Definition mcb_candidates (g : graph) : list ring := horton_candidates g ++ fund_cycles g.
+
 Definition mcb_ref (g : graph) : list ring :=
-  greedy g [] (sort_by_len (horton_candidates g)) (Z.to_nat (cyclomatic g)).
+  greedy g [] (sort_by_len (mcb_candidates g)) (Z.to_nat (cyclomatic g)).
 
 (* ------------------------------------------------------------------------------------------------ *)
 (* comparison helpers for the correspondence (sets are compared sorted)                                *)
